@@ -41,6 +41,7 @@ enum {
 	FM_LEGACYSHAPE = 16384, // SSE/FO4 file that still contains NiTriShape geometry (built as Skyrim LE, then re-versioned)
 	FM_EXPORTINFO = 32768,  // 300-character export info in the header
 	FM_TEXPATH = 65536,     // a texture path that needs cleaning in texture slot 0
+	FM_SEGMENTS = 4194304,  // FO4/FO76: the shape carries 2 segments, the first with 2 sub-segments (triangle 0 in sub-segment 1, triangle 1 in segment 2)
 	FM_SKIN2 = 2097152,     // with FM_SHAPE2: "Other" is skinned to ONE bone ("Bone0"), so that the file holds skin blocks with different bone counts
 	FM_DATALESS = 1048576,  // OB/FO3/SK: a NiTriShape "NoData" without geometry data is the first shape of the file
 	FM_BONETYPE = 524288,   // with FM_SKIN: bone "Bone1" is a BSValueNode (value 42) instead of a NiNode
@@ -149,6 +150,22 @@ static inline FmModel fm_build(NifFile& nif, int ver, int feat) {
 		std::vector<Triangle> t2 = {Triangle(0, 1, 2)};
 		std::vector<Vector2> u2 = {Vector2(0, 0), Vector2(1, 0), Vector2(0, 1)};
 		m.shape2 = nif.CreateShapeFromData("Other", &v2, &t2, &u2, nullptr);
+	}
+	if ((feat & FM_SEGMENTS) && (ver == FM_FO4 || ver == FM_FO76)) {
+		NifSegmentationInfo inf;
+		inf.segs.resize(2);
+		inf.segs[0].partID = 0;
+		inf.segs[0].subs.resize(2);
+		inf.segs[0].subs[0].partID = 1;
+		inf.segs[0].subs[0].userSlotID = 30;
+		inf.segs[0].subs[0].material = 7;
+		inf.segs[0].subs[1].partID = 2;
+		inf.segs[0].subs[1].userSlotID = 31;
+		inf.segs[0].subs[1].material = 8;
+		inf.segs[1].partID = 3;
+		inf.ssfFile = "Meshes\\a.ssf";
+		std::vector<int> parts = {1, 3};
+		NifFile::SetShapeSegments(m.shape, inf, parts);
 	}
 	if ((feat & FM_SKIN2) && m.shape2) {
 		nif.CreateSkinning(m.shape2);
@@ -274,6 +291,56 @@ static inline FmModel fm_build(NifFile& nif, int ver, int feat) {
 	if (legacy)
 		hdr.SetVersion(fm_version(ver));
 	return m;
+}
+
+// read-only query battery shared by C15 / C16: everything a viewer or converter would ask a loaded model
+static inline void fm_query_battery(NifFile& nif) {
+	auto shapes = nif.GetShapes();
+	std::vector<NiObject*> tree;
+	nif.GetTree(tree);
+	nif.GetShapeNames();
+	nif.GetNodes();
+	nif.GetRootNode();
+	for (auto sh : shapes) {
+		std::vector<Vector3> v;
+		nif.GetVertsForShape(sh, v);
+		std::vector<Triangle> t;
+		sh->GetTriangles(t);
+		std::vector<std::string> bones;
+		nif.GetShapeBoneList(sh, bones);
+		std::vector<int> ids;
+		nif.GetShapeBoneIDList(sh, ids);
+		std::string tex;
+		nif.GetTextureSlot(sh, tex, 0);
+		nif.GetShader(sh);
+		nif.GetParentNode(sh);
+		nif.GetUvsForShape(sh);
+		nif.GetNormalsForShape(sh);
+		NiVector<BSDismemberSkinInstance::PartitionInfo> pinfo;
+		std::vector<int> triParts;
+		nif.GetShapePartitions(sh, pinfo, triParts);
+		NifSegmentationInfo sinf;
+		std::vector<int> segParts;
+		NifFile::GetShapeSegments(sh, sinf, segParts);
+		MatTransform xf;
+		nif.GetShapeTransformGlobalToSkin(sh, xf);
+		nif.CalcShapeTransformGlobalToSkin(sh, xf);
+		// per-bone queries with every index that is valid for the shape's own bone list
+		for (uint32_t bi = 0; bi < ids.size(); bi++) {
+			nif.GetShapeTransformSkinToBone(sh, bi, xf);
+			nif.GetShapeBoneTransform(sh, bi, xf);
+			BoundingSphere bs;
+			nif.GetShapeBoneBounds(sh, bi, bs);
+			std::unordered_map<uint16_t, float> w;
+			nif.GetShapeBoneWeights(sh, bi, w);
+		}
+		for (auto& bn : bones) {
+			nif.GetShapeTransformSkinToBone(sh, bn, xf);
+			nif.GetShapeBoneTransform(sh, bn, xf);
+		}
+	}
+	for (auto n : nif.GetNodes())
+		nif.GetParentNode(n);
 }
 
 struct FmRange {
